@@ -37,6 +37,15 @@ type c09Case struct {
 	StepRaw   string `json:"step_raw"`
 	// Faulted step is the first half of a joined two-command line.
 	FirstOfJoined bool `json:"first_of_joined,omitempty"`
+	// Status file left by earlier runs (do-approve): "" = none,
+	// "uptodate" = approve OK, later compare UPTODATE, "approved-since" =
+	// compare DIFF, later approve OK.
+	Prior string `json:"prior,omitempty"`
+}
+
+var c09Prior = map[string]string{
+	"uptodate":       `{"approve":{"result":"OK","policy":"p1","time":1600000000},"compare":{"result":"UPTODATE","policy":"p1","time":1600000900}}`,
+	"approved-since": `{"approve":{"result":"OK","policy":"p1","time":1600000900},"compare":{"result":"DIFF","policy":"p1","time":1600000000}}`,
 }
 
 func (c *c09Case) id() string {
@@ -47,12 +56,17 @@ func (c *c09Case) id() string {
 	if c.Banner != nil {
 		f += "+banner:" + c.Banner.Form + "/" + c.Banner.Kind
 	}
-	return fmt.Sprintf("%s/%s/cmp=%v/s%d/fault=%s/pend=%d/wm=%s", c.Type, c.FrontEnd, c.Compare, c.Scenario, f, c.Pend, c.WriteMem)
+	id := fmt.Sprintf("%s/%s/cmp=%v/s%d/fault=%s/pend=%d/wm=%s", c.Type, c.FrontEnd, c.Compare, c.Scenario, f, c.Pend, c.WriteMem)
+	if c.Prior != "" {
+		id += "/prior=" + c.Prior
+	}
+	return id
 }
 
 func buildC09(c *c09Case) *liveCase {
 	lc := buildC06(&c06Case{Type: c.Type, FrontEnd: c.FrontEnd, Scenario: c.Scenario, Hostname: "exact", Marker: "present"})
 	lc.Compare = c.Compare
+	lc.PreStatus = c09Prior[c.Prior]
 	if c.Fault != nil {
 		if lc.Cli != nil {
 			lc.Cli.Faults = []sim.Fault{*c.Fault}
@@ -259,7 +273,7 @@ func checkC09(tier, replay string) int {
 	rep.Rule = "For {asa, ios, linux, panos, nsx} x {drc, do-approve} x {approve, compare(do-approve only)} x 3 scenarios: a fault of kind " +
 		"{error text, unexpected output, tolerated notice lines followed by an error line (ASA/IOS change commands), wrong echo, connection close, stall beyond timeout | HTTP 500, HTTP 403, close, malformed body, status=error, stall, commit job FAIL, PEND..FAIL} " +
 		"is injected at every ordinal position of the reference dialogue (login, terminal setup, hostname, retrieval, each change command incl. second half of joined lines, save/commit, job poll), " +
-		"plus IOS write-memory variants (NVRAM overwrite question then OK / then too large / then open failed, too large, no [OK], busy once then OK, busy always). Oracle after a delivered fault: no later config-change, no later save/commit, exit != 0, do-approve status FAILED (approve) / DIFF (compare), history END: FAILED; " +
+		"plus IOS write-memory variants (NVRAM overwrite question then OK / then too large / then open failed, too large, no [OK], busy once then OK, busy always). Oracle after a delivered fault: no later config-change, no later save/commit, exit != 0, do-approve status FAILED (approve) / DIFF (compare), history END: FAILED - two thirds of the do-approve runs start from the status file of earlier runs (approve OK then compare UPTODATE; compare DIFF then approve OK); " +
 		"converse on every run: status OK only without delivered fault, with all commands accepted and save confirmed. " +
 		"Non-trivial = fault was delivered (seen in transcript). quick: stalls at every 5th position; thorough: everything."
 	rep.Assumptions = []string{
@@ -337,9 +351,15 @@ func checkC09(tier, replay string) int {
 					if kind == "stall" && tier == "quick" && (e.Ord+int(env.Seed))%5 != 0 {
 						continue
 					}
+					// do-approve runs start from the status file of earlier
+					// runs in two of three cases.
+					prior := ""
+					if k.fe == "do-approve" {
+						prior = []string{"", "uptodate", "approved-since"}[(e.Ord+len(kind))%3]
+					}
 					cases = append(cases, &c09Case{Type: k.typ, FrontEnd: k.fe, Compare: k.cmp, Scenario: k.sc, Pend: 1,
 						Fault: &sim.Fault{Ord: e.Ord, Kind: kind}, StepClass: e.Class, StepRaw: e.Raw,
-						FirstOfJoined: firstOfJoined, Setup: setup})
+						FirstOfJoined: firstOfJoined, Setup: setup, Prior: prior})
 				}
 				if k.typ == "ios" && !k.cmp && e.Class == "config-change" && e.Reload == "pending" {
 					// The refused command is also the one whose echo a
